@@ -55,9 +55,10 @@ ViolationStages == {"registry.Primitive", "registry.PrimitiveFromKeyData(public)
                     "registry.Primitive panicked", "factory", "keyset handle", "factory panicked"}
 StageOf(s) == LET idx == {i \in 1..Len(s) : SubSeq(s, i, i) = ":"} IN
               IF idx = {} THEN s ELSE SubSeq(s, 1, (CHOOSE i \in idx : \A j \in idx : i <= j) - 1)
-JudgePrim(T, kind, r) ==
+JudgePrim(T, p, kind, r) ==
   LET class == PrimClass(T, kind) IN
-  IF ~r.done THEN (IF StageOf(r.stage) \in ViolationStages
+  IF ~PrimitiveOK(T, p) THEN (IF r.done THEN <<Cov("the library has no primitive for such keys (PrimitiveOK)"), T>> ELSE <<>>)
+  ELSE IF ~r.done THEN (IF StageOf(r.stage) \in ViolationStages
                    THEN <<"no working primitive for a key the manager itself generated", r.stage>>
                    ELSE <<Cov("the driver could exercise the primitive"), r.stage>>)
   ELSE IF class = "NONE" THEN (IF r.refused THEN <<>> ELSE <<Cov("the managers of JWT keys and of the PRF-based deriver refuse Primitive()"), "refused">>)
@@ -88,11 +89,12 @@ First(s) == IF s = <<>> THEN <<>> ELSE LET idx == {i \in DOMAIN s : s[i] # <<>>}
 
 JudgeFmt(e) ==
   LET T == e.kt
-      p == e.p
+      p == Denoted(e.kt, e.p)          \* the parameters the format denotes
       kind == e.kind
       url == TypeURL(T, kind)
   IN
-  IF ~e.fmtBuilt THEN <<Cov("the driver can write the key format"), T>>
+  IF e.dp # p THEN <<Cov("the driver builds the expected parameters from the denoted record"), T>>
+  ELSE IF ~e.fmtBuilt THEN <<Cov("the driver can write the key format"), T>>
   ELSE IF ~e.found THEN <<Cov("a manager is registered for the key type"), url>>
   ELSE IF e.km.panic \/ e.reg.panic \/ e.nk.panic THEN <<"panic in NewKeyData / NewKey", "no panic">>
   ELSE IF ~e.km.err /\ ~ParamsOK(T, p) THEN <<"NewKeyData accepts a key format with invalid parameters", "refused">>
@@ -114,7 +116,7 @@ JudgeFmt(e) ==
     ELSE IF ~e.nk.parse \/ ~e.nk.eqWant THEN <<"NewKey's key does not carry the parameters the format describes", "Equal parameters">>
     ELSE <<>>,
     IF kind = "private" THEN JudgePub(T, e.pub) ELSE <<>>,
-    IF e.case.interop THEN JudgePrim(T, kind, e.prim) ELSE <<>> >>)
+    IF e.case.interop THEN JudgePrim(T, p, kind, e.prim) ELSE <<>> >>)
 
 JudgePubFmt(e) ==
   IF ~e.fmtBuilt \/ ~e.found THEN <<Cov("the driver can ask the manager of the public key type"), e.kt>>
@@ -150,7 +152,7 @@ JudgeTpl(e) ==
     ELSE IF e.nk.err THEN <<Cov("registry.NewKey works for the library's templates"), e.name>>
     ELSE IF e.nk.name # ProtoFullName(TemplateURL(T)) THEN <<"registry.NewKey returns a message of another type", ProtoFullName(TemplateURL(T))>>
     ELSE <<>>,
-    IF e.h.n # 1 \/ ~e.h.primary \/ e.h.status # "ENABLED" THEN <<"keyset.NewHandle(template): one enabled primary key", "1 / primary / ENABLED">>
+    IF e.h.n # 1 \/ ~e.h.primary \/ e.h.status # "Enabled" THEN <<"keyset.NewHandle(template): one enabled primary key", "1 / primary / Enabled">>
     ELSE IF e.h.prefix # TemplatePrefix(T, p) \/ e.h.url # TemplateURL(T) \/ e.h.material # TemplateMaterial(T)
            THEN <<"keyset.NewHandle(template): key of the template's type and prefix", TemplateURL(T), TemplatePrefix(T, p)>>
     ELSE IF e.h.idreq # (IF HasIdRequirement(v) THEN e.h.keyId ELSE "none")
@@ -215,11 +217,14 @@ Judge(e) ==
     [] e.ev = "custom" -> JudgeCustom(e)
     [] OTHER -> <<Cov("known event kind"), e.ev>>
 
-\* a coverage expectation is reported once per (event kind, key type / part, reason) and shard
+\* A disagreement is reported once per signature (event kind, key type / part / template, reason, failing stage) and
+\* shard: repetitions do not stop the run again (the check de-duplicates by signature anyway); after a restart behind a
+\* mismatch the signatures of the prefix are recomputed.
 IsCov(b) == b # <<>> /\ Len(b[1]) >= 8 /\ SubSeq(b[1], 1, 8) = "COVERAGE"
-Who(e) == IF "kt" \in DOMAIN e THEN e.kt ELSE IF "part" \in DOMAIN e THEN e.part ELSE ""
-SigOf(e, b) == <<e.ev, Who(e), b[1]>>
-SigsUpTo(n) == {SigOf(Trace[i], Judge(Trace[i])) : i \in {j \in 1..n : IsCov(Judge(Trace[j]))}}
+Who(e) == IF e.ev = "tpl" THEN e.name ELSE IF "kt" \in DOMAIN e THEN e.kt ELSE IF "part" \in DOMAIN e THEN e.part ELSE ""
+Detail(b) == IF Len(b) >= 2 /\ b[1] = "no working primitive for a key the manager itself generated" THEN b[2] ELSE ""
+SigOf(e, b) == <<e.ev, Who(e), b[1], Detail(b)>>
+SigsUpTo(n) == {SigOf(Trace[i], Judge(Trace[i])) : i \in {j \in 1..n : Judge(Trace[j]) # <<>>}}
 
 VARIABLES l, bad, seen
 Init == l = Start /\ bad = <<>> /\ seen = SigsUpTo(Start - 1)
@@ -227,7 +232,7 @@ Next ==
   /\ l <= Len(Trace)
   /\ l' = l + 1
   /\ LET b == Judge(Trace[l]) IN
-       IF ~IsCov(b) THEN bad' = b /\ seen' = seen
+       IF b = <<>> THEN bad' = <<>> /\ seen' = seen
        ELSE /\ seen' = seen \cup {SigOf(Trace[l], b)}
             /\ bad' = IF SigOf(Trace[l], b) \in seen THEN <<>> ELSE b
 Conforms == bad = <<>>
